@@ -141,7 +141,12 @@ func runSelftest(prop, only string, verbose bool) (bool, int, []string) {
 		repoDir = savedRepo
 		var failing []string
 		if err != nil {
-			fmt.Printf("selftest: ERROR %s: %v\n", name, err)
+			fmt.Printf("selftest: INVALID %s (the mutated tree does not load/compile: %v)\n", name, firstLine(err.Error()))
+			skipped = append(skipped, name)
+			rev := exec.Command("patch", "-p1", "-R", "-s", "--no-backup-if-mismatch", "-i", m.path)
+			rev.Dir = dir
+			rev.Run()
+			continue
 		} else {
 			for _, r := range out.results {
 				if !r.O.Cover && r.V.Status != "unsat" {
@@ -178,4 +183,13 @@ func runSelftest(prop, only string, verbose bool) (bool, int, []string) {
 	}
 	fmt.Printf("selftest: %d killed, %d survived, %d skipped\n", killed, len(survived), len(skipped))
 	return len(survived) == 0, killed, survived
+}
+
+func firstLine(s string) string {
+	if i := strings.Index(s, "\n"); i >= 0 {
+		if j := strings.Index(s[i+1:], "\n"); j >= 0 {
+			return s[:i+1+j]
+		}
+	}
+	return s
 }
